@@ -11,7 +11,9 @@ import (
 // See https://www.w3.org/TR/2019/REC-wasm-core-1-20191205/#custom-section%E2%91%A0
 func decodeCustomSection(r *bytes.Reader, name string, limit uint64) (result *wasm.CustomSection, err error) {
 	buf := make([]byte, boundedSize(r, limit))
-	_, err = r.Read(buf)
+	if len(buf) > 0 { // bytes.Reader.Read returns io.EOF at the end of the input even for an empty buffer.
+		_, err = r.Read(buf)
+	}
 
 	result = &wasm.CustomSection{
 		Name: name,
